@@ -260,7 +260,7 @@ def _judge_chunk(args):
 
     def cb(tag, d):
         if tag == "DISAGREE":
-            dis[d["i"]] = (d["rule"], d["detail"])
+            dis[d["i"]] = (sorted(d["rules"]), d["detail"])
         elif tag == "UNDECIDED":
             und.add(d["i"])
 
@@ -447,8 +447,8 @@ def run(ctx: Ctx) -> Outcome:
         for e in r["errors"]:
             k = ":".join(e.split(":")[:3])
             errors[k] = errors.get(k, 0) + 1
-    for i in sorted(dis):
-        rule, detail = dis[i]
+    for i, rule in [(i, r) for i in sorted(dis) for r in dis[i][0]]:
+        detail = dis[i][1]
         di, rec = back[i - 1]
         o = obs[i - 1]
         if o["kind"] == "value":
@@ -469,7 +469,7 @@ def run(ctx: Ctx) -> Outcome:
     for j in common.sample(rng, sample_pool, 5):
         di, rec = back[j]
         samples.append({"descriptor": _short(descs[di])[:300], "kind": obs[j]["kind"], "description": rec["description"],
-                        "label": obs[j].get("mode") or obs[j]["c"]["labels"], "rule": dis.get(j + 1, ("ok",))[0]})
+                        "label": obs[j].get("mode") or obs[j]["c"]["labels"], "rules": dis.get(j + 1, (["ok"],))[0]})
     out.coverage = {
         "states": res_s.distinct + res_o.distinct, "transitions": res_s.generated + res_o.generated,
         "schema_descriptors": len(descs_s), "operation_descriptors": len(descs_o),
@@ -517,8 +517,8 @@ def replay(ctx: Ctx, data: dict) -> Outcome:
     r = observe(desc)
     schemas, ops, obs, back = assemble([desc], [r])
     dis, _, _ = judge(ctx, schemas, ops, obs)
-    for i in sorted(dis):
-        rule, detail = dis[i]
+    for i, rule in [(i, r) for i in sorted(dis) for r in dis[i][0]]:
+        detail = dis[i][1]
         _, rec = back[i - 1]
         sig = value_signature(rule, rec["description"], detail, desc) if obs[i - 1]["kind"] == "value" else case_signature(rule, rec["description"], detail, desc)
         if rule == data["rule"] and rec["description"] == data["description"]:
@@ -552,7 +552,7 @@ def selftest(ctx: Ctx) -> bool:
            case("negative", "2", 1, documented=False),                                                      # 9 faithful (method)
            case("positive", "2", 7, blabel="negative"), case("negative", "2", 1), case("positive", None, 1)]  # 10, 11, 12 corrupted
     dis, _, _ = judge(ctx, schemas, [op], obs, name="selftest.json")
-    got = {i: dis[i][0] for i in dis}
+    got = {i: dis[i][0][0] for i in dis}
     want = {3: "valid-label-invalid-value", 4: "invalid-label-valid-value", 5: "description-mismatch",
             10: "case-positive-something-invalid", 11: "case-negative-nothing-invalid", 12: "case-positive-something-invalid"}
     if got != want:
